@@ -2,6 +2,7 @@ package main
 
 import (
 	"fmt"
+	"go/token"
 	"go/types"
 	"sort"
 	"strings"
@@ -378,12 +379,24 @@ func (ix *idxEngine) fillSummaryOf(callee *ssa.Function) fillSummary {
 	}
 	st := stores[0]
 	ia := st.Addr.(*ssa.IndexAddr)
-	phi, ok := p.resolve(ia.Index).(*ssa.Phi)
-	if !ok || !p.isLoopPhi(phi) {
+	// the index counts 0,1,..,len(A)-1:  i := 0; i < len(A); i++   or the rotated form of  for i := range A
+	idx := p.resolve(ia.Index)
+	var phi *ssa.Phi
+	off := int64(0)
+	switch x := idx.(type) {
+	case *ssa.Phi:
+		phi = x
+	case *ssa.BinOp:
+		if q, isPhi := x.X.(*ssa.Phi); isPhi && x.Op == token.ADD {
+			if k, isK := constInt(x.Y); isK {
+				phi, off = q, k
+			}
+		}
+	}
+	if phi == nil || !p.isLoopPhi(phi) {
 		return fillSummary{}
 	}
 	hdr := phi.Block()
-	// phi = (0 from outside, phi+1 on back edges)
 	for k, pred := range hdr.Preds {
 		if hdr.Dominates(pred) {
 			e := p.linOf(phi.Edges[k]).sub(linTerm(p.canon(phi)))
@@ -393,17 +406,17 @@ func (ix *idxEngine) fillSummaryOf(callee *ssa.Function) fillSummary {
 			if !st.Block().Dominates(pred) {
 				return fillSummary{} // an iteration may skip the store
 			}
-		} else if k0, ok := constInt(phi.Edges[k]); !ok || k0 != 0 {
+		} else if k0, ok := constInt(phi.Edges[k]); !ok || k0+off != 0 {
 			return fillSummary{}
 		}
 	}
-	// header test: phi < len(A)
+	// header test: idx < len(A)
 	iff, ok := hdr.Instrs[len(hdr.Instrs)-1].(*ssa.If)
 	if !ok {
 		return fillSummary{}
 	}
 	cs := p.condConstraints(iff.Cond, true)
-	want := lt(linTerm(p.canon(phi)), p.lenOf(A), "")
+	want := lt(p.linOf(idx), p.lenOf(A), "")
 	if len(cs) != 1 || cs[0].e.String() != want.e.String() {
 		return fillSummary{}
 	}
